@@ -41,6 +41,7 @@ def main():
     ap.add_argument("prop")
     ap.add_argument("--tier", default="quick")
     ap.add_argument("--dry", action="store_true")
+    ap.add_argument("--prune", action="store_true", help="remove listed inputs that no longer fail (after a check correction)")
     args = ap.parse_args()
     if os.environ.get("PYTHONHASHSEED") != "0":
         env = dict(os.environ)
@@ -59,6 +60,14 @@ def main():
     path = os.path.join(common.VERIF, "findings", f"known_findings.{prop}.jsonl")
     recs = load(path)
     by_id = {r["finding"]: r for r in recs}
+    if args.prune:
+        gone = {k for _fid, k in info.get("listed_pass", [])}
+        n0 = sum(len(r["cases"]) for r in recs)
+        for r in recs:
+            r["cases"] = [c for c in r["cases"] if c["key"] not in gone]
+        recs = [r for r in recs if r["cases"]]
+        by_id = {r["finding"]: r for r in recs}
+        print(f"pruned {n0 - sum(len(r['cases']) for r in recs)} listed inputs that no longer fail")
     added = collections.Counter()
     for key, sig, detail in info["unlisted"]:
         cls, summary = mod.classify(key, sig, detail)
